@@ -217,8 +217,7 @@ def check_function(res: Result, src, sh, fname, fn, inputs, origin, rows=True):
             if weaker or nt_alias:
                 res.nontrivial((sh, fname, k))
             case = {'src': src, 'func': fname, 'args': encode_args(args), 'ctx': ctx_text, 'origin': origin}
-            if res.evaluations % 397 == 0:
-                res.sample(case, nt=bool(weaker or nt_alias))
+            res.maybe_sample(case, nt=bool(weaker or nt_alias))
             seen = set()
             for bucket, exp, g, detail in viol:
                 if bucket in seen:
